@@ -748,7 +748,7 @@ func init() {
 		SingleThread: true,
 		Overlay:      true,
 		Spaces: func(c *sup.Ctx) []*sup.Space {
-			return []*sup.Space{c11EntryPoints(), c11AfterLimit(), c11Limits(c), c11Schedules(c)}
+			return []*sup.Space{c11EntryPoints(), c11QueryAfterLoad(), c11AfterLimit(), c11Limits(c), c11Schedules(c)}
 		},
 	})
 }
